@@ -71,6 +71,14 @@ func vScriptOfKind(kind int) []byte {
 		s = append(s, vNondetBytes("h160", 20)...)
 		s = append(s, 0x87)
 		return append(s, vNondetBytes("extra", 1+vNondetLen("nextra", 1))...)
+	case 9: // pay-to-pubkey frame around a hybrid-encoded key (the generator; 0x06 is its valid hybrid form): parseable,
+		// but not a compressible template
+		s := []byte{0x41, 0x06 + byte(vNondetLen("oddness", 1)),
+			0x79, 0xbe, 0x66, 0x7e, 0xf9, 0xdc, 0xbb, 0xac, 0x55, 0xa0, 0x62, 0x95, 0xce, 0x87, 0x0b, 0x07,
+			0x02, 0x9b, 0xfc, 0xdb, 0x2d, 0xce, 0x28, 0xd9, 0x59, 0xf2, 0x81, 0x5b, 0x16, 0xf8, 0x17, 0x98,
+			0x48, 0x3a, 0xda, 0x77, 0x26, 0xa3, 0xc4, 0x65, 0x5d, 0xa4, 0xfb, 0xfc, 0x0e, 0x11, 0x08, 0xa8,
+			0xfd, 0x17, 0xb4, 0x48, 0xa6, 0x85, 0x54, 0x19, 0x9c, 0x47, 0xd0, 0x8f, 0xfb, 0x10, 0xd4, 0xb8}
+		return append(s, 0xac)
 	case 8: // compressed-pubkey template followed by an extra byte
 		s := []byte{0x21, 0x02}
 		s = append(s, vNondetBytes("x", 32)...)
@@ -90,7 +98,7 @@ func vScriptOfKind(kind int) []byte {
 // back, and decompressScript(putCompressedScript(s)) == s, for the special templates and generic scripts
 //verif:opts reach=end
 func VH_script_compression_roundtrip() {
-	s := vScriptOfKind(vNondetLen("kind", 8))
+	s := vScriptOfKind(vNondetLen("kind", 9))
 	n := compressedScriptSize(s)
 	buf := make([]byte, n+2)
 	w := putCompressedScript(buf, s)
